@@ -196,3 +196,24 @@ Definition verdict_prune (c : pcase) : nat :=
       then 0 else 2
   | _, _ => 2
   end.
+
+(* `apply` also rewrites the module's source file.  The file after the run on the full store must be the file
+   after the run on the decodable rows alone; it is what was printed; when nothing was printed it is the
+   original file (None = the module has no source file any more). *)
+Definition ostr_eqb (a b : option string) : bool :=
+  match a, b with
+  | None, None => true
+  | Some x, Some y => String.eqb x y
+  | _, _ => false
+  end.
+
+Record fcase := FCase {
+  fc_orig : option string; fc_file1 : option string; fc_file2 : option string; fc_out1 : list string
+}.
+Definition verdict_file (c : fcase) : nat :=
+  if negb (ostr_eqb (fc_file1 c) (fc_file2 c)) then 2 else
+  match fc_out1 c with
+  | [] => if ostr_eqb (fc_file1 c) (fc_orig c) then 0 else 2
+  | [s] => if ostr_eqb (fc_file1 c) (Some s) then 0 else 2
+  | _ => 3
+  end.
